@@ -142,6 +142,20 @@ def gen_design(rnd, kind, n_poses, n_lm, closures, noisy):
             W = spd(d)
             for sg in (1, -1):
                 edges.append(dict(cls='lm', vs=[a + 1, n_poses + j + 1], tz=[x + sg * y for x, y in zip(z, n)], rz=[], toff=list(off[0]), roff=list(off[1]), W=W))
+    # consistent range measurements (a user-defined edge type that inherits the numerical Jacobians): between vertices whose separation at the
+    # ground truth is a non-zero integer, measured exactly -- zero residual, so the ground truth stays stationary
+    pos = [list(p[0]) for p in poses] + [list(l) for l in lms]
+    pairs = []
+    for i in range(len(pos)):
+        for j in range(i + 1, len(pos)):
+            d2 = sum((x - y) ** 2 for x, y in zip(pos[i], pos[j]))
+            r = int(round(d2 ** 0.5))
+            if d2 > 0 and r * r == d2:
+                pairs.append((i, j, r))
+    rnd.shuffle(pairs)
+    for i, j, r in pairs[:rnd.randint(0, 2)]:
+        i, j = (i, j) if rnd.random() < 0.5 else (j, i)
+        edges.append(dict(cls='range', vs=[i + 1, j + 1], tz=[r], rz=[], toff=[], roff=[], W=[[rnd.choice([1, 2, 4])]]))
     # some landmarks are held fixed at their true position (this does not move the optimum of the others)
     if n_lm >= 2 and rnd.random() < 0.6:
         verts[n_poses + rnd.randrange(n_lm - 1)]['fixed'] = True
